@@ -376,7 +376,7 @@ theorem clientLoop_cons (d : Def) (now seed ts : Nat) (c : Store) (ctr : Nat) (v
   obtain ⟨⟨m, hs⟩, hi, he, hj, hcr⟩ := h
   unfold clientIter
   conv => lhs; unfold clientLoop
-  simp only [hs, hi]
+  simp only [hj, hs, hi, Bool.true_eq_false, ↓reduceIte]
   cases hk : c.hasKey subj id with
   | true => simp
   | false =>
